@@ -51,82 +51,19 @@ SEQ_EVENTS = ['tcp_ok', 'tcp_fail', 'open_ok', 'ka', 'upd', 'notif', 'hdr_type',
               'manual_stop', 'manual_start', 'open_hold12', 'open_badver', 'rr', 'upd_bad', 'hdr_len', 'notif_ver']
 
 
-def applicable(w, ev):
-    """is this environment event possible now?  (the environment cannot deliver data on a closed
-    connection, cannot complete a connect that is not pending, ...)"""
-    r = w.reactor
-    if ev in ('tcp_ok', 'tcp_fail'):
-        return len([c for c in r.connectors if c.state == 'connecting']) == 1
-    if ev in SC.MSG_EVENTS:
-        cs = [c for c in r.connectors if c.state == 'connected']
-        return len(cs) == 1 and not cs[0].transport.disconnecting
-    if ev == 'peer_close':
-        cs = [c for c in r.connectors if c.state == 'connected']
-        return len(cs) == 1 and not cs[0].transport.disconnecting
-    if ev == 'close_done':
-        cs = [c for c in r.connectors if c.state == 'connected']
-        return len(cs) == 1 and cs[0].transport.disconnecting
-    if ev == 'timer':
-        return len(r.active_calls()) > 0
-    return True
-
-
-def next_timer(w):
-    best = None
-    for name in ('connect_retry', 'hold', 'keepalive', 'delay_open', 'idle_hold'):
-        if w.timer_active(name):
-            t = w.timer_deadline(name)
-            if best is None or t < best[0]:
-                best = (t, name)
-    return best[1]
-
-
-def abstract_state(w):
-    """state as the oracle tracks it"""
-    return w.state
-
-
 def ob_seq(e1: int, e2: int, e3: int, e4: int) -> bool:
     """boot; automatic start; then k events chosen by symbolic indices; after every step the
     reaction must be allowed by the RFC relation for the (state, event) at hand."""
-    evs = P['alphabet']
-    k = P['k']
-    first = P.get('first')
-    idx = [e1, e2, e3, e4][:k]
-    w = S.boot(P.get('cfg'))
-    w.ev_auto_start()
-    steps = 0
-    for i in range(k):
-        e = idx[i]
-        assume(0 <= e < len(evs))
-        if i == 0 and first is not None:
-            assume(e == first)
-        ev = evs[e]
-        if not applicable(w, ev):
-            assume(False)
-        state = w.state
-        hold = w.fsm.hold_time
-        mark = w.mark()
-        real_ev = ev
-        if ev == 'timer':
-            name = next_timer(w)
-            real_ev = {'connect_retry': 'crt', 'hold': 'holdt', 'keepalive': 'kat', 'idle_hold': 'start_idlehold'}[name]
-            w.ev_fire(name)
-        elif ev in SC.MSG_EVENTS:
-            vals = P.get('vals', {}).get(ev, [90, 0x0A000002, 0])
-            w.ev_data(SC.message_for(ev, w, vals[0], vals[1], vals[2]))
-        else:
-            SC.inject(w, ev, 0, 0, 0)
-        obs = SC.observe(w, mark)
-        oev, sub = SC.oracle_event(real_ev)
+    def step_check(w, info):
+        state, real_ev = info['state'], info['ev']
         if state == S.IDLE and real_ev == 'start_idlehold' and not w.fsm.allow_automatic_start:
-            # a stopped peer: the expiry must change nothing (C13); not a C01 row
-            continue
-        if not REF.check(state, oev, {'sub': sub, 'hold': hold}, obs):
-            return False
-        steps += 1
-    cover('seq')
-    return True
+            return True     # a stopped peer: owned by C13, not a C01 row
+        if state == S.IDLE and real_ev in ('crt', 'holdt', 'kat'):
+            # stale timers in Idle: the RFC ignores them
+            return REF.check(state, 'stale_timer', {}, info['obs'])
+        oev, sub = SC.oracle_event(real_ev)
+        return REF.check(state, oev, {'sub': sub, 'hold': info['hold']}, info['obs'])
+    return SC.run_seq(P, [e1, e2, e3, e4], step_check)
 
 
 def obligations(tier, seed):
